@@ -1,7 +1,7 @@
 use super::{Client, Snapshot, Storage, StorageTxn, Version};
-use std::collections::HashMap;
 #[cfg(feature = "verif-hooks")]
 use crate::verif_sync::{Mutex, MutexGuard};
+use std::collections::HashMap;
 #[cfg(not(feature = "verif-hooks"))]
 use std::sync::{Mutex, MutexGuard};
 use uuid::Uuid;
